@@ -1,11 +1,16 @@
 package service
 
 import (
+	"context"
 	"strings"
 
+	"github.com/streamingfast/dstore"
 	"github.com/streamingfast/substreams/manifest"
+	pbsubstreams "github.com/streamingfast/substreams/pb/sf/substreams/v1"
 	pboutput "github.com/streamingfast/substreams/storage/execout/pb"
+	"github.com/streamingfast/substreams/storage/store"
 	sym "github.com/streamingfast/substreams/zz_verifsym"
+	"go.uber.org/zap"
 )
 
 // c01Reference is a single sequential execution of the scripted module graph of c07Fake
@@ -17,13 +22,17 @@ func c01Reference(f *c07Fake, n uint64) [][]byte {
 	for b := uint64(0); b < n; b++ {
 		var m1, m2 []byte
 		if f.emit&(1<<b) != 0 {
-			m1 = []byte{f.vals[b%uint64(len(f.vals))]}
+			m1 = f.m1Value(b)
 		}
 		if f.keys&(1<<b) != 0 {
 			m2 = []byte{f.wals[b%uint64(len(f.wals))]}
 		}
-		if m1 != nil {
-			k[b%2] = m1 // the store's write at block b is visible to the later stage at block b
+		if m1 != nil { // the store's write at block b is visible to the later stage at block b
+			if f.graph == 3 {
+				k[b%2] = append(append([]byte{}, k[b%2]...), m1...)
+			} else {
+				k[b%2] = m1
+			}
 		}
 		// m1 runs on every block (its input is the block itself); a module that ran and emitted
 		// nothing is an empty input, not a skipped one: out runs on every block too
@@ -64,45 +73,9 @@ func VerifC01Segments() {
 			}
 		}
 		for seg := uint64(0); seg < 2; seg++ {
-			var content []byte
-			found := false
-			for _, n := range files.Names() {
-				if strings.HasPrefix(n, "tag/"+c07OutHash+"/outputs/") && strings.Contains(n, c01RangeName(seg*segSize, (seg+1)*segSize)) {
-					content, found = files.Get(n)
-				}
-			}
-			if !found {
-				sym.Unreachable("segment-job-leaves-the-output-file")
+			if !c01CheckSegment(files, seg, segSize, want) {
 				return false
 			}
-			m := &pboutput.Map{}
-			if m.UnmarshalFast(content) != nil {
-				sym.Unreachable("output-file-decodes")
-				return false
-			}
-			n := 0
-			for b := seg * segSize; b < (seg+1)*segSize; b++ {
-				var got []byte
-				present := false
-				for _, it := range m.Kv {
-					if it.BlockNum == b {
-						sym.Assert(!present, "no-block-twice-in-the-outputs")
-						got, present = it.Payload, true
-						sym.Assert(it.BlockId == c07ID(b), "output-carries-its-block-id")
-					}
-				}
-				if present {
-					n++
-				}
-				// a block without payload may be left out; a payload is never altered or invented
-				if want[b] == nil {
-					sym.Assert(len(got) == 0, "no-invented-payload")
-				} else {
-					sym.Assert(present, "no-missing-payload")
-					sym.Assert(sym.EqBytes(got, want[b]), "payload-of-a-sequential-execution")
-				}
-			}
-			sym.Assert(n == len(m.Kv), "no-output-outside-the-segment")
 		}
 		sym.Reach(pass)
 		return true
@@ -158,3 +131,188 @@ func c01Pad(n uint64) string {
 }
 
 func c01RangeName(from, to uint64) string { return c01Pad(from) + "-" + c01Pad(to) }
+
+// c01Squasher stands for the orchestrator's squasher of the store s1 (orchestrator/stage
+// singleSquash, which the executor cannot run: it selects on channels): one full store kept
+// across segments; for each segment, the full snapshot at the segment's end if it exists,
+// else the segment's partial merged into the store (the real Merge), saved (the real Save)
+// and the partial deleted.
+type c01Squasher struct {
+	cfg  *store.Config
+	full *store.FullKV
+}
+
+func c01NewSquasher(url string, policy pbsubstreams.Module_KindStore_UpdatePolicy) *c01Squasher {
+	st, err := dstore.NewStore(url, "zst", "zstd", false)
+	if err != nil {
+		return nil
+	}
+	sub, err := st.SubStore("tag")
+	if err != nil {
+		return nil
+	}
+	cfg, err := store.NewConfig("s1", 0, "7331", policy, "bytes", sub)
+	if err != nil {
+		return nil
+	}
+	return &c01Squasher{cfg: cfg, full: cfg.NewFullKV(zap.NewNop())}
+}
+
+func (q *c01Squasher) squash(start, end uint64) bool {
+	ctx := context.Background()
+	if exists, err := q.cfg.ExistsFullKV(ctx, end); err != nil {
+		return false
+	} else if exists {
+		next := q.cfg.NewFullKV(zap.NewNop())
+		if next.Load(ctx, store.NewCompleteFileInfo("s1", 0, end)) != nil {
+			return false
+		}
+		q.full = next
+		return true
+	}
+	file := store.NewPartialFileInfo("s1", start, end)
+	partial := q.cfg.NewPartialKV(start, zap.NewNop())
+	if partial.Load(ctx, file) != nil {
+		return false
+	}
+	if q.full.Merge(partial) != nil {
+		return false
+	}
+	_, w, err := q.full.Save(end)
+	if err != nil || w.Write(ctx) != nil {
+		return false
+	}
+	return partial.DeleteStore(ctx, file) == nil
+}
+
+// VerifC01Staged: the whole production-mode back-fill of SEGS segments as the orchestrator
+// runs it — per segment the stage-0 job (partial store), the squash of the partial into the
+// running full store (snapshot at each boundary), then per segment the last-stage job starting
+// from that snapshot — gives the output module the payloads of one sequential execution; and
+// again after any subset of the cache (per module and kind of file) was evicted. Set-policy or
+// append-policy store (GRAPH 0 / 3).
+func VerifC01Staged() {
+	manifest.TestUseSimpleHash = true
+	segSize := uint64(sym.Param("BLOCKS", 2))
+	nSeg := uint64(sym.Param("SEGS", 3))
+	total := nSeg * segSize
+	fake := &c07Fake{segSize: 8, valLen: sym.Param("VALLEN", 1), graph: sym.Param("GRAPH", 0), emit: sym.Byte("emit"), keys: byte(sym.Param("KEYS", 6)), vals: sym.BytesN("vals", 2), wals: sym.BytesN("wals", 2)}
+	sym.Assume(fake.emit < 1<<total)
+	if sym.Param("DENSE", 0) == 1 {
+		// every block writes the store: consecutive segments all touch both keys
+		sym.Assume(fake.emit == 1<<total-1)
+	}
+	policy := pbsubstreams.Module_KindStore_UPDATE_POLICY_SET
+	if fake.graph == 3 {
+		policy = pbsubstreams.Module_KindStore_UPDATE_POLICY_APPEND
+	}
+	want := c01Reference(fake, total)
+
+	defer sym.RemoveURLStores()
+	files, url := sym.NewURLStore("cache")
+	pass := func(tag string) bool {
+		for seg := uint64(0); seg < nSeg; seg++ {
+			if err := c07Job(url, 0, seg, segSize, fake); err != nil {
+				sym.Unreachable("stage-0-job-completes")
+				return false
+			}
+		}
+		q := c01NewSquasher(url, policy)
+		if q == nil {
+			sym.Unreachable("squasher-set-up")
+			return false
+		}
+		for seg := uint64(0); seg < nSeg; seg++ {
+			if !q.squash(seg*segSize, (seg+1)*segSize) {
+				sym.Unreachable("squash-completes")
+				return false
+			}
+		}
+		for seg := uint64(0); seg < nSeg; seg++ {
+			if err := c07Job(url, 1, seg, segSize, fake); err != nil {
+				sym.Unreachable("last-stage-job-completes")
+				return false
+			}
+		}
+		for seg := uint64(0); seg < nSeg; seg++ {
+			if !c01CheckSegment(files, seg, segSize, want) {
+				return false
+			}
+		}
+		sym.Reach(tag)
+		return true
+	}
+	if !pass("parallel-on-empty-cache") {
+		return
+	}
+	if sym.Param("EVICT", 0) < 0 {
+		return
+	}
+	removed := 0
+	evictGroup := map[string]bool{}
+	for _, n := range files.Names() {
+		cut := 0
+		for i := 0; i < len(n); i++ {
+			if n[i] == '/' {
+				cut = i
+			}
+		}
+		g := n[:cut]
+		if _, seen := evictGroup[g]; !seen {
+			evictGroup[g] = sym.Choice("evict", 2) == 1
+		}
+		if evictGroup[g] {
+			files.Delete(n)
+			removed++
+		}
+	}
+	if removed > 0 {
+		sym.Reach("partial-cache")
+	}
+	pass("served-from-cache")
+}
+
+// c01CheckSegment decodes the output module's file of one segment and compares it block by
+// block with the sequential reference.
+func c01CheckSegment(files *sym.MemStore, seg, segSize uint64, want [][]byte) bool {
+	var content []byte
+	found := false
+	for _, n := range files.Names() {
+		if strings.HasPrefix(n, "tag/"+c07OutHash+"/outputs/") && strings.Contains(n, c01RangeName(seg*segSize, (seg+1)*segSize)) {
+			content, found = files.Get(n)
+		}
+	}
+	if !found {
+		sym.Unreachable("segment-job-leaves-the-output-file")
+		return false
+	}
+	m := &pboutput.Map{}
+	if m.UnmarshalFast(content) != nil {
+		sym.Unreachable("output-file-decodes")
+		return false
+	}
+	n := 0
+	for b := seg * segSize; b < (seg+1)*segSize; b++ {
+		var got []byte
+		present := false
+		for _, it := range m.Kv {
+			if it.BlockNum == b {
+				sym.Assert(!present, "no-block-twice-in-the-outputs")
+				got, present = it.Payload, true
+				sym.Assert(it.BlockId == c07ID(b), "output-carries-its-block-id")
+			}
+		}
+		if present {
+			n++
+		}
+		// a block without payload may be left out; a payload is never altered or invented
+		if want[b] == nil {
+			sym.Assert(len(got) == 0, "no-invented-payload")
+		} else {
+			sym.Assert(present, "no-missing-payload")
+			sym.Assert(sym.EqBytes(got, want[b]), "payload-of-a-sequential-execution")
+		}
+	}
+	sym.Assert(n == len(m.Kv), "no-output-outside-the-segment")
+	return true
+}
